@@ -573,14 +573,30 @@ def l2_worker(task):
     return res
 
 
+def l2_batch_worker(batch):
+    out = []
+    for task in batch:
+        try:
+            out.append(("ok", l2_worker(task)))
+        except Exception:  # noqa: BLE001
+            import traceback
+
+            out.append(("exc", traceback.format_exc()[-600:]))
+    return out
+
+
 def run_l2(rep, tier, r):
     from harness import pool
 
-    n = 70 if tier == "quick" else 1500
+    n = 240 if tier == "quick" else 3000
     progs = corpus_programs() + [gen_program(r, tier) for _ in range(n)]
     tasks = [(r.getrandbits(32), p) for p in progs]
+    bs = 10
+    batches = [tasks[i:i + bs] for i in range(0, len(tasks), bs)]
     t0 = time.time()
-    out = pool.run_tasks(l2_worker, tasks, timeout=40 if tier == "quick" else 120, total_timeout=45 if tier == "quick" else 900)
+    out = pool.run_tasks(l2_batch_worker, batches, timeout=40 if tier == "quick" else 120, workers=4 if tier == "quick" else 16,
+                         total_timeout=40 if tier == "quick" else 900)
+    out = [x for (st, val), b in zip(out, batches) for x in (val if st == "ok" else [(st, None)] * len(b))]
     nfail = 0
     stats = {"ok": 0, "timeout": 0, "exc": 0, "error_paths": 0, "evaluated": 0}
     for (seed, prog), (st, val) in zip(tasks, out):
@@ -660,7 +676,10 @@ def report(rep, what, case, sigs):
 # ----------------------------------------------------------------------------- run
 
 def run(rep, tier):
+    T = {}
+    t0 = time.time()
     b = common.build_property(PID, TRANSLATORS)
+    T["build_property"] = round(time.time() - t0, 1)
     common.standard_obligations(rep, PID, b)
     exe = None
     if b["make_ok"]:
@@ -671,13 +690,19 @@ def run(rep, tier):
     r = common.rng(PID)
     _KNOWN_HITS.clear()
 
+    T["driver"] = round(time.time() - t0, 1)
     check_transient_wiring(rep)
+    T["transient"] = round(time.time() - t0, 1)
 
     # ---- L1a
     ngroups = 260 if tier == "quick" else 4000
     groups = [gen_group(r, tier, special="boundary" if i % 9 == 0 else None) for i in range(ngroups)]
-    with Pool(min(16, os.cpu_count() or 4)) as pool_:
-        impl = pool_.map(impl_group, groups, chunksize=8)
+    if tier == "quick":
+        impl = [impl_group(g) for g in groups]     # ~20 ms per group: cheaper than forking a pool
+    else:
+        with Pool(min(16, os.cpu_count() or 4)) as pool_:
+            impl = pool_.map(impl_group, groups, chunksize=32)
+    T["l1_impl"] = round(time.time() - t0, 1)
     model_res = None
     if exe is not None:
         m = Model(exe)
@@ -714,6 +739,7 @@ def run(rep, tier):
                         rep.fail("broken-tie", f"model and implementation disagree on {'SolidityStorage.get_key_structure' if key == 'sol' else 'GenericStorage.decode'} of {g['locs'][idx]} registry={g['reg']} envs={g['envs']}: implementation {im[key][idx]} model {mo[key][idx]}",
                                  case={"l1": {"reg": g["reg"], "locs": [g["locs"][idx]], "envs": g["envs"]}, "implementation": im[key][idx], "model": mo[key][idx]})
 
+    T["l1_model_and_compare"] = round(time.time() - t0, 1)
     # ---- L1b: OffsetMap and select
     om_cases = gen_offsetmap_cases(r, tier)
     sel_cases = gen_select_cases(r, tier)
@@ -743,8 +769,11 @@ def run(rep, tier):
             rep.fail("failing-input", f"Exec.select returns a definite answer that contradicts the oracle's (sound) answers: case {c}: got {o}, last write says {exp}",
                      case={"select": c, "got": o}, sig={"feature": "select"})
 
+    T["l1b"] = round(time.time() - t0, 1)
     # ---- L2
     run_l2(rep, tier, r)
+    T["l2"] = round(time.time() - t0, 1)
+    rep.coverage["phase_seconds_cumulative"] = T
 
     for kid, h in _KNOWN_HITS.items():
         print(f"KNOWN-FINDING: property={PID} {kid} ({h['count']} failing inputs): {h['what'][:300]}")
